@@ -21,9 +21,16 @@ func VerifC13_range_gate() {
 	// r and s: any integer of up to byteLen+1 bytes, either sign (covers 0, negatives, >= n)
 	which := vBool("vary_r")
 	r, s := big.NewInt(1), big.NewInt(1)
-	if which {
+	if vBool("order_sized") {
+		// a value of exactly the order's length: below, equal to or above n
+		v := new(big.Int).SetBytes(vBytesC("order_sized_value", byteLen, byteLen))
+		if which {
+			r = v
+		} else {
+			s = v
+		}
+	} else if which {
 		r = c13Int("r", vBound("C13_int_len", 3, 67))
-		_ = byteLen
 	} else {
 		s = c13Int("s", vBound("C13_int_len", 3, 67))
 	}
